@@ -337,7 +337,7 @@ class Minor(object):
         elif abs(e - 1.0) < self._tol:
             # Parabolic case
             q = self._q
-            ww = (0.03649116245 * (epoch - self._t)) / (q * sqrt(q))
+            ww = (0.03649116245 * t_peri) / (q * sqrt(q))
             sp = ww / 3.0
             iterate = True
             while iterate:
